@@ -31,6 +31,16 @@ package main
 //                           method 0..6 x partitions 0..3), (iii) frames of the independent plan writer gen_vp8.go
 //                           (absolute/delta segment values, filter deltas, arbitrary probability updates);
 //                           on (i) also as a property of the real code: parseHeaders returns the state emitPartition0 wrote
+//   bmodeprob <top> <left> <i>   the byte the model resolves the sub-block mode slot to vs lossy.KBModesProba[top][left][i], all 900 slots
+//   modeemit <frame modes>  the MODE side of partition 0 at byte level: random mode frames (up to 4x3 macroblocks, I16 / I4 with all 10
+//                           sub-block modes in every (top, left) context - the coverage of the 1000 (top, left, mode) triples is
+//                           reported -, chroma modes, segment ids with map update, skip flags) through the real emitPartition0 /
+//                           writeMBModes (hook EmitModes) vs headerOps + emitMBs(...).part0 + the BoolWriter model: BYTES verbatim
+//   modeparse <w> <h> <part0 hex>  the real parseHeaders + parseIntraModeRow (hook ParseModes: IsI4x4, the 16 IModes incl. the stale
+//                           entries of I16 macroblocks, UVMode, Segment, Skip per macroblock, eof) vs T.parseHeader + T.parseModes on
+//                           the BoolReader model with the probability function of the parsed header, on (i) the frames above,
+//                           (ii) real webp.Encode output over the option grid, (iii) plan-writer frames (gen_vp8.go);
+//                           on (i) also as a property of the real code: parseIntraModeRow returns the modes writeMBModes wrote
 // Round trip on the real code alone (property findings, C06): every written sequence is read back with the
 // matching reader calls (GetBit or GetBitAlt for PutBit, GetBit(128)/GetSigned for PutBitUniform, GetValue for
 // PutBits, GetBit(128)+GetSignedValue for PutSignedBits) and must return the symbols, with eof still false.
@@ -768,7 +778,30 @@ func suiteBoolCoder(rep *Report) error {
 			add("VP8HeaderBytes", "hdr-parse:planwriter", l, g, true)
 			rep.Count("hdr-parse:planwriter")
 		}
+		if l, g, ok := bcModeParseLines(payload, rep, "planwriter"); ok {
+			add("VP8ModeBytes", "mode-parse:planwriter", l, g, true)
+		}
 	}
+
+	// ---- the mode side of partition 0 ----
+	for t := 0; t < 10; t++ {
+		for l := 0; l < 10; l++ {
+			for i := 0; i < 9; i++ {
+				add("VP8ModeBytes", "bmodeprob", fmt.Sprintf("bmodeprob %d %d %d", t, l, i),
+					fmt.Sprintf("ok %d", verifapi.KBModesProba(t, l, i)), true)
+			}
+		}
+	}
+	rep.CountN("mode:bmodeprob-slots", 900)
+	nm := 200
+	if rep.Tier == "thorough" {
+		nm = 2500
+	}
+	triples := map[int]bool{}
+	for i := 0; i < nm; i++ {
+		bcModeSynth(rep, NewRNG(rep.Seed, 97_000_000+uint64(i)), add, propFinding, triples)
+	}
+	rep.Extra["bmode_context_triples_covered"] = fmt.Sprintf("%d/1000", len(triples))
 
 	in := make([]string, len(lines))
 	for i, l := range lines {
@@ -800,11 +833,25 @@ func suiteBoolCoder(rep *Report) error {
 	if unwiredH {
 		rep.Notes = append(rep.Notes, "driver has no handler for ops hdremit/hdrparse (Driver.VP8HeaderBytes not wired into Driver/Main.lean): header leg skipped")
 	}
+	// ... and for Driver.VP8ModeBytes (ops bmodeprob, modeemit, modeparse)
+	unwiredM := true
+	for i, l := range lines {
+		if l.site == "VP8ModeBytes" && lean[i] != "bad-op" {
+			unwiredM = false
+			break
+		}
+	}
+	if unwiredM {
+		rep.Notes = append(rep.Notes, "driver has no handler for ops bmodeprob/modeemit/modeparse (Driver.VP8ModeBytes not wired into Driver/Main.lean): mode leg skipped")
+	}
 	for i, l := range lines {
 		if unwired && l.site == "VP8SyntaxBytes" {
 			continue
 		}
 		if unwiredH && l.site == "VP8HeaderBytes" {
+			continue
+		}
+		if unwiredM && l.site == "VP8ModeBytes" {
 			continue
 		}
 		rep.Eval(l.nontr, []byte(l.line))
@@ -1136,12 +1183,172 @@ func bcHeaderEncode(rep *Report, r *RNG, i int, add func(site, kind, line, goL s
 		return
 	}
 	payload := vp8Payload(buf.Bytes())
+	if l, g, ok := bcModeParseLines(payload, rep, "encoder"); ok {
+		add("VP8ModeBytes", "mode-parse:encoder", l, g, true)
+	}
 	if l, g, ok := bcHeaderParseLines(payload); ok {
 		add("VP8HeaderBytes", "hdr-parse:encoder", l, g, true)
 		rep.Count("hdr-parse:encoder")
 		rep.Count(fmt.Sprintf("hdr-enc:method%d", o.Method))
 		rep.Count(fmt.Sprintf("hdr-enc:segments%d", o.Segments))
 		rep.Count(fmt.Sprintf("hdr-enc:partitions%d", o.Partitions))
+	}
+}
+
+// ---------- the mode side of partition 0 ----------
+
+func bcModeOutLine(mbs []verifapi.MBModeOut, eof bool) string {
+	parts := make([]string, len(mbs))
+	for i, m := range mbs {
+		ms := make([]string, 16)
+		for k, v := range m.IModes {
+			ms[k] = strconv.Itoa(int(v))
+		}
+		parts[i] = fmt.Sprintf("%s:%s:%d:%d:%s", b2s(m.IsI4), strings.Join(ms, ","), m.UVMode, m.Segment, b2s(m.Skip))
+	}
+	return fmt.Sprintf("ok %s eof=%s", strings.Join(parts, ";"), b2s(eof))
+}
+
+// bcModeParseLines: the modeparse line of a VP8 payload and the real decoder's answer.
+func bcModeParseLines(payload []byte, rep *Report, src string) (line, goL string, ok bool) {
+	if len(payload) < 10 {
+		return "", "", false
+	}
+	tag := int(payload[0]) | int(payload[1])<<8 | int(payload[2])<<16
+	plen := tag >> 5
+	if 10+plen > len(payload) {
+		return "", "", false
+	}
+	w := (int(payload[6]) | int(payload[7])<<8) & 0x3fff
+	h := (int(payload[8]) | int(payload[9])<<8) & 0x3fff
+	var mbs []verifapi.MBModeOut
+	var errStr string
+	var eof bool
+	goL, _ = guard(func() string {
+		mbs, _, _, errStr, eof = verifapi.ParseModes(payload)
+		if errStr != "" {
+			return "err " + errStr
+		}
+		return bcModeOutLine(mbs, eof)
+	})
+	if errStr != "" || goL == "panic" {
+		// header rejected at container level, or a premature end of data inside parseIntraModeRow (the model has no
+		// mid-row eof exit): not part of this tie
+		if rep != nil {
+			rep.Count("mode-parse:" + src + ":skipped-" + errStr)
+		}
+		return "", "", false
+	}
+	if rep != nil {
+		rep.Count("mode-parse:" + src)
+		n4 := 0
+		for _, m := range mbs {
+			if m.IsI4 {
+				n4++
+			}
+		}
+		rep.CountN("mode-parse:"+src+":i4-macroblocks", n4)
+		rep.CountN("mode-parse:"+src+":macroblocks", len(mbs))
+	}
+	return fmt.Sprintf("modeparse %d %d %s", w, h, hx(payload[10:10+plen])), goL, true
+}
+
+func bcModeSynth(rep *Report, r *RNG, add func(site, kind, line, goL string, nontr bool), prop func(prop, sig, detail, line string), triples map[int]bool) {
+	var in verifapi.ModesIn
+	in.MbW, in.MbH = 1+r.Intn(4), 1+r.Intn(3)
+	in.UseSegment = r.Intn(3) > 0
+	in.UpdateMap = r.Bool()
+	for i := range in.SegProbs {
+		in.SegProbs[i] = []uint8{255, 128, 1, 0, uint8(r.Intn(256))}[r.Intn(5)]
+	}
+	useSkip := r.Bool()
+	if useSkip {
+		in.NumSkip = 1
+	}
+	in.SkipProba = []uint8{0, 1, 128, 255, uint8(r.Intn(256))}[r.Intn(5)]
+	n := in.MbW * in.MbH
+	in.MBs = make([]verifapi.MBModeIn, n)
+	top := make([]uint8, 4*in.MbW)
+	descs := make([]string, n)
+	for y := 0; y < in.MbH; y++ {
+		var left [4]uint8
+		for x := 0; x < in.MbW; x++ {
+			m := &in.MBs[y*in.MbW+x]
+			m.IsI4 = r.Intn(10) < 7
+			m.I16Mode = uint8(r.Intn(4))
+			m.UVMode = uint8(r.Intn(4))
+			m.Segment = uint8(r.Intn(4))
+			m.Skip = useSkip && r.Intn(3) == 0
+			if m.IsI4 {
+				for by := 0; by < 4; by++ {
+					ym := left[by]
+					for bx := 0; bx < 4; bx++ {
+						mode := uint8(r.Intn(10))
+						m.Modes[by*4+bx] = mode
+						triples[(int(top[4*x+bx])*10+int(ym))*10+int(mode)] = true
+						ym = mode
+						top[4*x+bx] = mode
+					}
+					left[by] = ym
+				}
+			} else {
+				for k := 0; k < 4; k++ {
+					top[4*x+k] = m.I16Mode
+					left[k] = m.I16Mode
+				}
+			}
+			ms := make([]string, 16)
+			for k, v := range m.Modes {
+				ms[k] = strconv.Itoa(int(v))
+			}
+			descs[y*in.MbW+x] = fmt.Sprintf("%s,%d,%d,%d,%s,%s", b2s(m.IsI4), m.I16Mode, m.UVMode, m.Segment, b2s(m.Skip), strings.Join(ms, ","))
+		}
+	}
+	line := fmt.Sprintf("modeemit %d %d %s,%s %d,%d,%d %s,%d %s", in.MbW, in.MbH, b2s(in.UseSegment), b2s(in.UpdateMap),
+		in.SegProbs[0], in.SegProbs[1], in.SegProbs[2], b2s(useSkip), in.SkipProba, strings.Join(descs, ";"))
+	var part0 []byte
+	goL, _ := guard(func() string {
+		part0 = verifapi.EmitModes(&in)
+		return "ok " + bcOut(part0)
+	})
+	add("VP8ModeBytes", "mode-emit", line, goL, true)
+	rep.Count("mode-emit")
+	rep.Count(fmt.Sprintf("mode-emit:frame%dx%d", in.MbW, in.MbH))
+	if goL == "panic" {
+		return
+	}
+	payload := verifapi.AssembleFrame(16*in.MbW, 16*in.MbH, part0, [][]byte{nil})
+	pl, pg, ok := bcModeParseLines(payload, rep, "synthetic")
+	if !ok {
+		prop("C06", "boolcoder:modes:parse-rejects", "the real decoder rejects the modes writeMBModes wrote", line)
+		return
+	}
+	add("VP8ModeBytes", "mode-parse:synthetic", pl, pg, true)
+	// the real decoder returns what the real encoder wrote
+	mbs, _, _, _, eof := verifapi.ParseModes(payload)
+	bad := ""
+	if eof {
+		bad = "eof raised"
+	}
+	for i := range mbs {
+		m, o := &in.MBs[i], &mbs[i]
+		switch {
+		case o.IsI4 != m.IsI4:
+			bad = "macroblock type"
+		case m.IsI4 && o.IModes != m.Modes:
+			bad = "sub-block modes"
+		case !m.IsI4 && o.IModes[0] != m.I16Mode:
+			bad = "16x16 mode"
+		case o.UVMode != m.UVMode:
+			bad = "chroma mode"
+		case in.UseSegment && in.UpdateMap && o.Segment != m.Segment:
+			bad = "segment id"
+		case useSkip && o.Skip != m.Skip:
+			bad = "skip flag"
+		}
+	}
+	if bad != "" {
+		prop("C06", "boolcoder:modes:roundtrip", "parseIntraModeRow does not return what writeMBModes wrote: "+bad, line)
 	}
 }
 
@@ -1167,6 +1374,21 @@ func replayBoolLine(in map[string]any) int {
 			return 2
 		}
 		goL, _, _ = bcRunReader(unhx(f[1]), ops)
+	case f[0] == "bmodeprob" && len(f) == 4:
+		t, _ := strconv.Atoi(f[1])
+		l, _ := strconv.Atoi(f[2])
+		i, _ := strconv.Atoi(f[3])
+		goL = fmt.Sprintf("ok %d", verifapi.KBModesProba(t, l, i))
+	case f[0] == "modeparse" && len(f) == 4:
+		w, _ := strconv.Atoi(f[1])
+		h, _ := strconv.Atoi(f[2])
+		p0 := unhx(f[3])
+		for _, k := range []int{1, 2, 4, 8} {
+			if _, g, ok := bcModeParseLines(verifapi.AssembleFrame(w, h, p0, make([][]byte, k)), nil, ""); ok {
+				goL = g
+				break
+			}
+		}
 	case f[0] == "hdrparse" && len(f) == 2:
 		// the Go side needs the whole payload: rebuild one around the partition (one empty token partition per count)
 		p0 := unhx(f[1])
